@@ -2,6 +2,13 @@
 
 package basestore
 
+import (
+	"fmt"
+	"strconv"
+
+	"berty.tech/go-orbit-db/internal/verifhook"
+)
+
 // VerifJoinIdle reports whether no join/merge is currently in progress (verification builds only).
 func (b *BaseStore) VerifJoinIdle() bool {
 	if b.muJoining.TryLock() {
@@ -9,4 +16,11 @@ func (b *BaseStore) VerifJoinIdle() bool {
 		return true
 	}
 	return false
+}
+
+// verifStatus reports one replication-status recalculation to the schedule-point handler.
+func (b *BaseStore) verifStatus(kind string, arg int) {
+	verifhook.Point("store.recalc", fmt.Sprintf("%p", b), kind,
+		strconv.Itoa(arg), strconv.Itoa(b.OpLog().Len()),
+		strconv.Itoa(b.ReplicationStatus().GetProgress()), strconv.Itoa(b.ReplicationStatus().GetMax()))
 }
